@@ -236,6 +236,9 @@ def main():
     cache = FnCache()
     from harness.lie import prelude as _prelude
     _prelude(run, report=())
+    from harness import history as _history      # engine H: call histories in fresh interpreters (spec/LieHistory.tla)
+    if _history.hook(run, tier, {"exp", "log", "Jl", "Jr", "Jli", "Jri"}):
+        return run.finish()
     handlers = {"exp_so3": c02.replay, "exp_se3_gen": c02.replay, "exp_se23_gen": c02.replay,
                 "log_so3": c03.replay, "log_se3": c03.replay, "log_se23": c03.replay,
                 "jac_so3": c05.replay, "jac_se3": c05.replay, "jac_se23": c05.replay,
